@@ -118,7 +118,7 @@ func (e *Engine) verifyFunc(key string, ct *Contract, workRoot string, timeoutMs
 	probes := fx.modelProbes()
 	rep.Results = dischargeAll(dir, fx, probes, timeoutMs, 16, sem)
 	for _, r := range rep.Results {
-		if r.Status == "discharged" || r.Status == "covered" {
+		if (r.Status == "discharged" || r.Status == "covered") && os.Getenv("GVC_KEEPALL") == "" {
 			os.Remove(r.Query)
 		}
 	}
@@ -197,7 +197,7 @@ func runCheck(o checkOpts) int {
 		fmt.Println("SPEC-ERROR:", se)
 	}
 	known := loadKnown(filepath.Join(o.verifDir, "known_findings.json"))
-	timeoutMs := 8000
+	timeoutMs := 15000
 	if o.tier == "thorough" {
 		timeoutMs = 60000
 	}
@@ -276,6 +276,13 @@ func runCheck(o checkOpts) int {
 			}
 			if r != nil && r.Ob.AltGrp != "" {
 				isKnown = true // alternatives are expected to fail except one
+			}
+			if r != nil {
+				for pat := range rep.Fx.ct.Unproved {
+					if globMatch(pat, r.Ob.Label) {
+						isKnown = true // waived: stated, not claimed
+					}
+				}
 			}
 			if os.Getenv("GVC_NORETRY") != "" {
 				isKnown = true
